@@ -9,10 +9,11 @@ PROP = dict(
                        "Comdex.C04.modelled_match_quote_exact", "Comdex.C04.modelled_match_base_offset", "Comdex.C04.modelled_match_deficit",
                        "Comdex.C04.d2_offset_witness", "Comdex.C04.pair_escrow_ge_orders_counterexample",
                        "Comdex.C04.coins_conserved", "Comdex.C04.bank_keys_unique", "Comdex.C04.batch_conserves_coins",
-                       "Comdex.C04.batch_dust_exact", "Comdex.C04.batch_reserve_exact", "Comdex.C04.farm_custody_exact", "Comdex.C04.unfarm_newest_first", "Comdex.C04.maturation_exact",
+                       "Comdex.C04.batch_dust_exact", "Comdex.C04.batch_reserve_exact", "Comdex.C04.batch_fee_collector_exact", "Comdex.C04.farm_custody_exact", "Comdex.C04.unfarm_newest_first", "Comdex.C04.maturation_exact",
                        "Comdex.C04.no_mature_entry_after_batch", "Comdex.C04.deposit_refunded_if_pool_disabled",
                        "Comdex.C04.withdraw_refunded_if_pool_disabled", "Comdex.C04.zero_supply_disabled",
-                       "Comdex.C04.poolcoin_supply_only_by_pool_ops"],
+                       "Comdex.C04.poolcoin_supply_only_by_pool_ops", "Comdex.C04.poolcoin_supply_exact",
+                       "Comdex.C04.poolcoin_supply_fixed_without_executed_request", "Comdex.C04.poolcoin_supply_create_and_prune"],
     harness_tests=["TestC04"],
     trusted_base=[KERNEL_TB, HARNESS_TB,
                   "Model/LiqLedger.lean is hand-written from x/liquidity/keeper/{pool,swap,batch,rewards,pair}.go and abci.go; tied by "
